@@ -28,6 +28,18 @@ CHECKS = {
          "the exact power of ten. Correspondence: accessor round trips through every constructor and view, exact comparison.",
          NOTE_COMMON + " Accessor/constructor agreement is definitional in the model; its tie to the code is the correspondence run.",
          "Lean 4 proof + differential correspondence check (hooks for internal routines)", "DESIGN.md §5 C18"),
+ "C09": ("Kernel-checked Lean theorems: all five remainder forms (four ownership forms and %=) compute the truncated remainder of the operands aligned to the larger scale "
+         "(C09_forms_agree, every scale gap, with the real alignment code paths incl. u64 fast paths), and over Q: r = a - b*t for an integer t, |r| < |b|, r is zero or has the sign of a "
+         "(which pins t = trunc(a/b)), independence of the sign of b, and panic on a zero divisor in every form. Correspondence on values and panics.",
+         NOTE_COMMON, "Lean 4 proof + differential correspondence check", "DESIGN.md §5 C09"),
+ "C15": ("Kernel-checked Lean theorems: to_i64/to_i128 and to_u64/to_u128 (the branchy fast paths of the source) equal 'truncate toward zero, Some iff it fits; negative -> None for unsigned' "
+         "for every decimal (C15_toSigned, C15_toUnsigned), to_bigint = truncation, truncation = floor/ceil of the rational value (C15_truncInt_value), is_integer iff the value is an integer, "
+         "From<int> exact with scale 0. Correspondence on exact Option results around every type limit.",
+         NOTE_COMMON, "Lean 4 proof + differential correspondence check", "DESIGN.md §5 C15"),
+ "C19": ("Kernel-checked Lean theorem C19_run_exact: by induction over the program, any straight-line program of exact operations (98 binary overloads with the accumulator on either side, "
+         "unary operations, re-scaling, normalising, sums) ends with exactly the value of the same program over Q; C19_representation_independent: accumulators of equal value give results of "
+         "equal value whatever their forms. Correspondence: random programs, every prefix compared, plus ==/cmp/hash cross-checks along the way.",
+         NOTE_COMMON, "Lean 4 proof (invariant over operation sequences) + differential correspondence check on random programs", "DESIGN.md §5 C19"),
 }
 
 NOT_YET = "check under construction in this round (not yet claimed); see DESIGN.md §11 order of work"
